@@ -145,36 +145,73 @@ theorem power_setter_refreshes_full_F (O : Ops μ ρ) (K : Nat) (ops : List (Op 
   rw [readFullF_derived O K st (fullFDerived_of_none O K st hn)]
 
 /-- Clause "stream counts consistent with the filter shapes": after every history whose random
-    draws / solutions have the shapes they are specified to have and whose `solve` calls are given
-    an acceptable power, `Ns` is the list of column counts of the stored precoders. -/
+    draws / solutions have the shapes they are specified to have — rejected calls included — `Ns` is
+    the list of column counts of the stored precoders. -/
 theorem stream_counts_consistent (O : Ops μ ρ) (K : Nat) (ops : List (Op μ ρ))
     (hs : ∀ op ∈ ops, op.shapeOK O K) :
     NsOK O (reach Cfg.fixed O K ops) :=
   run_nsOK O K ops _ hs (by intro F hF; simp [State.init] at hF)
 
-/-- The guard of the previous theorem is needed: `solve` stores the requested stream counts
-    BEFORE it validates the power, so a `solve` rejected for its power leaves `Ns` describing
-    precoders that were never computed (also in the repaired code; documented limitation). -/
+/-- Before the second repair `solve` stored the requested stream counts BEFORE it validated the
+    power, so a `solve` rejected for its power left `Ns` describing precoders that were never
+    computed (`Cfg.round1`); the repaired code validates first and `Ns` still matches `F`. -/
 theorem rejected_solve_overwrites_ns :
     let ops : List (Op (List Rat) Rat) :=
       [.randomizeF [3, -2] (.int 1) .none, .solve false (.int 2) (.scalar (-1)) ⟨[1, 1], none, [1, 1], false, [2, 2]⟩]
-    (run Cfg.fixed (toyOps [2, 4]) 2 (State.init _ _) ops).2 = [.unit, .err .ValueError]
-    ∧ ¬ NsOK (toyOps [2, 4]) (reach Cfg.fixed (toyOps [2, 4]) 2 ops) := by
-  refine ⟨by decide +kernel, ?_⟩
+    (run Cfg.round1 (toyOps [2, 4]) 2 (State.init _ _) ops).2 = [.unit, .err .ValueError]
+    ∧ ¬ NsOK (toyOps [2, 4]) (reach Cfg.round1 (toyOps [2, 4]) 2 ops)
+    ∧ (run Cfg.fixed (toyOps [2, 4]) 2 (State.init _ _) ops).2 = [.unit, .err .ValueError]
+    ∧ (reach Cfg.fixed (toyOps [2, 4]) 2 ops).ns = some [1, 1] := by
+  refine ⟨by decide +kernel, ?_, by decide +kernel, by decide +kernel⟩
   intro h
   have := h [1, -1] (by decide +kernel)
   revert this
   decide +kernel
 
+/-- Class R4 (rejected calls): on the repaired code EVERY mutator — `P=`, `randomizeF`,
+    `set_precoders`, `set_receive_filters`, `solve`, `clear`, `initialize_with=` — that raises leaves all
+    eight attributes exactly as they were, for every state and every argument. -/
+theorem rejected_call_leaves_object_unchanged (O : Ops μ ρ) (K : Nat) (st : State μ ρ) (op : Op μ ρ)
+    (hm : op.isMutator = true) (e : PyErr) (he : (step Cfg.fixed O K st op).2 = .err e) :
+    (step Cfg.fixed O K st op).1 = st :=
+  step_rejected_unchanged O K st op hm e he
+
+/-- … hence a history with a rejected call in the middle ends in the same state and gives the same
+    later outputs as the history that never made that call (the object behaves like one that never
+    saw the rejected call). -/
+theorem history_ignores_rejected_calls (O : Ops μ ρ) (K : Nat) (pre post : List (Op μ ρ)) (op : Op μ ρ)
+    (hm : op.isMutator = true) (e : PyErr)
+    (he : (step Cfg.fixed O K (reach Cfg.fixed O K pre) op).2 = .err e) :
+    reach Cfg.fixed O K (pre ++ op :: post) = reach Cfg.fixed O K (pre ++ post)
+    ∧ (run Cfg.fixed O K (reach Cfg.fixed O K (pre ++ [op])) post).2
+        = (run Cfg.fixed O K (reach Cfg.fixed O K pre) post).2 :=
+  run_skip_rejected O K pre post op hm e he
+
+/-- Before the second repair two more rejected calls modified the object: `set_receive_filters`
+    with both / neither argument cleared the stored filters, `randomizeF` with a rejected power
+    cleared the stored precoders (`Cfg.round1`, evaluated on the exact `1 × 1` interpretation). -/
+theorem rejected_calls_modified_object_round1 :
+    let pre : List (Op (List Rat) Rat) := [.randomizeF [3, -2] (.int 1) .none, .setFilters none (some [1, 1])]
+    (run Cfg.round1 (toyOps [2, 4]) 2 (State.init _ _) (pre ++ [.setFilters none none, .readW])).2.drop 2
+        = [.err .RuntimeError, .arr none]
+    ∧ (run Cfg.fixed (toyOps [2, 4]) 2 (State.init _ _) (pre ++ [.setFilters none none, .readW])).2.drop 2
+        = [.err .RuntimeError, .arr (some [1, 1])]
+    ∧ (run Cfg.round1 (toyOps [2, 4]) 2 (State.init _ _) (pre ++ [.randomizeF [1, 1] (.int 1) (.scalar 0), .readF])).2.drop 2
+        = [.err .ValueError, .arr none]
+    ∧ (run Cfg.fixed (toyOps [2, 4]) 2 (State.init _ _) (pre ++ [.randomizeF [1, 1] (.int 1) (.scalar 0), .readF])).2.drop 2
+        = [.err .ValueError, .arr (some [1, -1])] := by
+  refine ⟨by decide +kernel, by decide +kernel, by decide +kernel, by decide +kernel⟩
+
 /-! ### rejected arguments -/
 
-/-- A non-positive scalar power, a vector of the wrong length or with a non-positive entry is
-    rejected with `ValueError` and nothing changes. -/
+/-- A non-positive scalar power, a vector of the wrong length or with a non-positive entry, or an
+    array that is not 0- or 1-dimensional is rejected with `ValueError` and nothing changes. -/
 theorem bad_power_rejected (O : Ops μ ρ) (K : Nat) (st : State μ ρ) (v : PArg ρ)
     (hv : PArg.valid O K v = false) :
     step Cfg.fixed O K st (.setP v) = (st, .err .ValueError) := by
   cases v with
   | none => simp [PArg.valid] at hv
+  | malformed => rfl
   | scalar x =>
     have : O.pos x = false := hv
     simp [step, setP, this, outOf]
@@ -188,16 +225,17 @@ theorem bad_power_rejected (O : Ops μ ρ) (K : Nat) (st : State μ ρ) (v : PAr
       simp [step, setP, h1, h2, outOf]
     · simp [step, setP, h1, outOf]
 
-/-- `set_precoders()` without `F` and without `full_F` raises `RuntimeError`, nothing changes;
-    `set_receive_filters` with both or neither of `W_H`, `W` raises `RuntimeError` after clearing the
-    filters; the closed-form solver refuses `K ≠ 3` with `AssertionError`, nothing changes. -/
+/-- `set_precoders()` without `F` and without `full_F`, `set_receive_filters` with both or neither of
+    `W_H`, `W`, and an unknown `initialize_with` raise `RuntimeError`; the closed-form solver refuses
+    `K ≠ 3` with `AssertionError`; in every case nothing changes. -/
 theorem bad_setter_arguments_rejected (O : Ops μ ρ) (K : Nat) (st : State μ ρ) (p : Option (List ρ))
     (X Y : μ) (ns : NsArg) (q : PArg ρ) (sol : Solution μ) (hK : K ≠ 3) :
     step Cfg.fixed O K st (.setPrecoders none none p) = (st, .err .RuntimeError)
-    ∧ step Cfg.fixed O K st (.setFilters none none) = (clearRx st, .err .RuntimeError)
-    ∧ step Cfg.fixed O K st (.setFilters (some X) (some Y)) = (clearRx st, .err .RuntimeError)
+    ∧ step Cfg.fixed O K st (.setFilters none none) = (st, .err .RuntimeError)
+    ∧ step Cfg.fixed O K st (.setFilters (some X) (some Y)) = (st, .err .RuntimeError)
+    ∧ step Cfg.fixed O K st (.setInit false) = (st, .err .RuntimeError)
     ∧ step Cfg.fixed O K st (.solve true ns q sol) = (st, .err .AssertionError) := by
-  refine ⟨rfl, rfl, rfl, ?_⟩
+  refine ⟨rfl, rfl, rfl, rfl, ?_⟩
   simp [step, doSolve, hK]
 
 /-! ### the design-round code violated the property (negative witnesses on `Cfg.orig`)
